@@ -63,6 +63,10 @@ impl Child {
         if self.out.latency_ms > 0 {
             real_tokio::time::sleep(std::time::Duration::from_millis(self.out.latency_ms)).await;
         }
+        if self.out.exit_code < 0 {
+            // killed by signal -exit_code (a helper that crashes, is OOM-killed, hits a ulimit): no exit code at all
+            return Ok(ExitStatus::from_raw((-self.out.exit_code) & 0x7f));
+        }
         Ok(ExitStatus::from_raw((self.out.exit_code & 0xff) << 8))
     }
     pub fn id(&self) -> Option<u32> {
